@@ -15,7 +15,7 @@ RULE = ("Every program of the E1 with-program space (AST size <= 3 quick / 4 tho
         "flags); an elaborate hook that reads next_inner. Every frame of every (chain, suspension point) of the C03 chain space, plus running chains of depth 1..4 over "
         "{coroutine, generator, async generator} probed from a plain function called by the innermost link (extract(root), "
         "extract(each link), extract_since(None)), plus blocked/dead threads, greenlets (3.12 leg) and custom stack items "
-        "with/without frames and with recorded errors. Checks: origin None or weak-referenceable with "
+        "with/without frames and with recorded errors, and a task tree whose outermost frame holds child tasks (all with_contexts / recurse_child_tasks combinations passed to both functions). Checks: origin None or weak-referenceable with "
         "extract_outermost(origin).pyframe is the frame; frames found inside a suspended generator-like carry it as origin; "
         "extract_outermost(x) == extract(x).frames[0] field by field, raises iff there are no frames, re-raising the recorded "
         "error. evaluations = frames checked + extract_outermost comparisons; distinct_nontrivial = distinct (spec, position) "
@@ -73,14 +73,15 @@ def check_origin(f, owner, problems, what):
             what, fo.pyframe.f_code.co_name, f.funcname))
 
 
-def check_outermost(x, problems, what, st=None):
+def check_outermost(x, problems, what, st=None, kw=None):
     import stackscope
+    kw = kw or {}
     with warnings.catch_warnings():
         warnings.simplefilter("ignore")
         if st is None:
-            st = stackscope.extract(x)
+            st = stackscope.extract(x, **kw)
         try:
-            fo = stackscope.extract_outermost(x)
+            fo = stackscope.extract_outermost(x, **kw)
             exc = None
         except Exception as ex:
             fo = None
@@ -223,7 +224,7 @@ def observe_running(case):
 # ------------------------------------------------------------------ misc scenarios
 def misc_scenarios():
     return ["thread_blocked", "thread_dead", "thread_unstarted", "custom_leaf", "custom_raises", "custom_two_raises", "custom_iter_two_errors", "custom_frames_then_raises",
-            "custom_frames", "custom_empty", "greenlet_suspended", "greenlet_dead", "gen_unstarted", "none", "int"]
+            "custom_frames", "custom_empty", "greenlet_suspended", "greenlet_dead", "gen_unstarted", "none", "int", "task_tree"]
 
 
 _custom = {}
@@ -343,6 +344,52 @@ def observe_misc(name):
             st = both(g, name)
             if st.frames:
                 problems.append("dead greenlet has frames")
+        return "ok", problems, n[0]
+    if name == "task_tree":
+        # the outermost frame itself holds a context with child tasks (two levels of them): the options decide what the
+        # children look like, and extract_outermost must decide exactly like extract
+        if "Nursery" not in T:
+            class Nursery(object):
+                def __init__(s, tasks):
+                    s.tasks = tasks
+
+                def __enter__(s):
+                    return s
+
+                def __exit__(s, *a):
+                    return False
+
+            @stackscope.elaborate_context.register(Nursery)
+            def _(mgr, context):
+                context.children = [stackscope.extract_child(t, for_task=True) for t in mgr.tasks]
+            T["Nursery"] = Nursery
+        Nursery = T["Nursery"]
+
+        def task(kids):
+            with Nursery(kids) as nursery:
+                yield len(kids)
+
+        def mk(depth, fan):
+            kids = [mk(depth - 1, fan) for _ in range(fan)] if depth else []
+            t = task(kids)
+            next(t)
+            return t
+        for depth, fan in ((1, 1), (2, 2)):
+            root = mk(depth, fan)
+            for kw in ({}, {"with_contexts": True, "recurse_child_tasks": False}, {"with_contexts": True, "recurse_child_tasks": True},
+                       {"with_contexts": False, "recurse_child_tasks": True}, {"with_contexts": False, "recurse_child_tasks": False},
+                       {"recurse_child_tasks": True}, {"with_contexts": False}):
+                st = check_outermost(root, problems, "%s(depth %d, fan %d, %r)" % (name, depth, fan, kw), kw=kw)
+                n[0] += 1
+                want_ctx = kw.get("with_contexts", True)
+                want_rec = kw.get("recurse_child_tasks", False)
+                cs_ = st.frames[0].contexts
+                if bool(cs_) != want_ctx:
+                    problems.append("%s %r: contexts %r" % (name, kw, cs_))
+                elif cs_:
+                    kids = cs_[0].children
+                    if len(kids) != fan or any(bool(k.frames) != want_rec for k in kids):
+                        problems.append("%s %r: children %r" % (name, kw, kids))
         return "ok", problems, n[0]
     a = g1()
     b = g2()
